@@ -12,7 +12,7 @@ use std::ffi::c_ulong;
 pub const INFO: CheckInfo = CheckInfo {
     prop: "C15",
     level: "model_checking",
-    rule: "invariant monitor on EVERY call of every execution of the shared (configuration x input x schedule) families (C API): next_in/next_out advance by exactly the bytes consumed/produced, avail_in/avail_out decrease by the same amounts without underflow, total_in/total_out equal the sums over all calls (+ preset-dictionary bytes for C-API deflate), Z_BUF_ERROR only when the call neither consumed nor produced (or Finish could not complete); each stream is decoded under three schedules with 0..3 trailing garbage bytes, where the consumed count must be exactly the stream length; the same chunkings through the Rust Deflate/Inflate wrappers (totals == sums of pointer differences); one-shot helpers compress/compress2/uncompress/uncompress2/compress_slice/decompress_slice report lengths equal to those totals, uncompress2 the compressed length excluding trailing bytes; explicit enumeration of inflate programs with inflateSync/reset/prime to depth 4 with totals compared with the sums after every call. Family uncompress-any-stream: uncompress / uncompress2 on every truncation, a bit-flip lattice, FDICT, wrong-wrapper and trailing-byte variants of six data sets into six destination sizes: (status, destLen, sourceLen, bytes) equal zlib-ng's and the totals of the equivalent single streaming call. distinct_nontrivial = distinct (compressed stream, per-call deltas) outcomes.",
+    rule: "invariant monitor on EVERY call of every execution of the shared (configuration x input x schedule) families (C API): next_in/next_out advance by exactly the bytes consumed/produced, avail_in/avail_out decrease by the same amounts without underflow, total_in/total_out equal the sums over all calls (+ preset-dictionary bytes for C-API deflate), Z_BUF_ERROR only when the call neither consumed nor produced (or Finish could not complete); each stream is decoded under three schedules with 0..3 trailing garbage bytes, where the consumed count must be exactly the stream length; the same chunkings through the Rust Deflate/Inflate wrappers (totals == sums of pointer differences); one-shot helpers compress/compress2/uncompress/uncompress2/compress_slice/decompress_slice report lengths equal to those totals, uncompress2 the compressed length excluding trailing bytes; explicit enumeration of inflate programs with inflateSync/reset/prime to depth 4 with totals compared with the sums after every call. Family uncompress-any-stream: uncompress / uncompress2 on every truncation, a bit-flip lattice, FDICT, wrong-wrapper and trailing-byte variants of six data sets into six destination sizes: (status, destLen, sourceLen, bytes) equal zlib-ng's and the totals of the equivalent single streaming call. Every third schedule runs (compresses and decodes) with total_in / total_out started at 2^32 - 100, so that every counter crosses 2^32 under the per-call monitor. distinct_nontrivial = distinct (compressed stream, per-call deltas) outcomes.",
     assumptions: &["histories outside the enumerated families are not covered", "running totals after Z_NEED_DICT are not judged (zlib is self-inconsistent there, see C16)"],
     bound_quick: "tiny + shape families (stride 5), 4 trailing-garbage lengths, Rust wrappers on 6 chunk sizes, sync programs depth 4",
     bound_thorough: "families stride 1, sync programs depth 5",
@@ -259,7 +259,9 @@ pub fn run(ctx: &mut Ctx) {
             || it.desc(),
             |c| {
                 c.exec();
-                let t = run_deflate::<Rs>(&it.cfg, &it.inp.data, it.sched, &env, &DExtra { probe: true, ..Default::default() }, Some(c))?;
+                // every third schedule runs on a stream whose totals start just below 2^32 (and, further down, decodes so)
+                let base: u64 = if it.sched_idx % 3 == 1 { (1u64 << 32) - 100 } else { 0 };
+                let t = run_deflate::<Rs>(&it.cfg, &it.inp.data, it.sched, &env, &DExtra { probe: true, totals_base: base, ..Default::default() }, Some(c))?;
                 c.outcome(t.outcome_hash());
                 if it.sched_idx != 0 {
                     c.nontrivial();
@@ -274,7 +276,7 @@ pub fn run(ctx: &mut Ctx) {
                             continue;
                         }
                         c.exec();
-                        let d = run_inflate::<Rs>(wb, &z, &sch, &env, &IExtra { expect_out: n, ..Default::default() }, None)?;
+                        let d = run_inflate::<Rs>(wb, &z, &sch, &env, &IExtra { expect_out: n, totals_base: base, ..Default::default() }, None)?;
                         if d.fin != Fin::StreamEnd || d.consumed != t.out.len() || d.total_out as usize != n {
                             return Err(format!("stream of {} bytes + {extra} trailing bytes: {:?}, consumed {}, total_out {} (data {n}) under [{}]", t.out.len(), d.fin, d.consumed, d.total_out, sch.desc()));
                         }
